@@ -391,6 +391,40 @@ pub(crate) fn h_check_namespaces() {
     vrt_cover(true, "check_namespaces_end");
 }
 
+/// C12 dispatch on a CUBE_5: each of the five standard axes is judged by the AXIS_PTS_<position> entry of the record
+/// layout that belongs to it. Axis `wide` has data type UWORD, the others UBYTE; axis `big` declares limits 0..1000.
+pub(crate) fn h_check_axis_dispatch_cube5() {
+    let wide = vrt_choice(5);
+    let big = vrt_choice(5);
+    let names = ["AXIS_PTS_X", "AXIS_PTS_Y", "AXIS_PTS_Z", "AXIS_PTS_4", "AXIS_PTS_5"];
+    let mut t = String::from("ASAP2_VERSION 1 71 /begin PROJECT p \"\" /begin MODULE m \"\"\n/begin RECORD_LAYOUT rl FNC_VALUES 1 UBYTE ROW_DIR DIRECT");
+    for i in 0..5u32 {
+        t.push(' ');
+        t.push_str(names[i as usize]);
+        t.push(' ');
+        t.push((b'2' + i as u8) as char);
+        t.push_str(if i == wide { " UWORD INDEX_INCR DIRECT" } else { " UBYTE INDEX_INCR DIRECT" });
+    }
+    t.push_str(" /end RECORD_LAYOUT\n/begin CHARACTERISTIC ch \"\" CUBE_5 0 rl 0 NO_COMPU_METHOD 0 255\n");
+    for i in 0..5u32 {
+        t.push_str("/begin AXIS_DESCR STD_AXIS NO_INPUT_QUANTITY NO_COMPU_METHOD 2 0 ");
+        t.push_str(if i == big { "1000" } else { "200" });
+        t.push_str(" /end AXIS_DESCR\n");
+    }
+    t.push_str("/end CHARACTERISTIC /end MODULE /end PROJECT");
+    let (file, _) = load_from_string(&t, None, true).unwrap();
+    let mut limit_errors = 0;
+    for e in file.check().iter() {
+        if let A2lError::LimitCheckError { .. } = e { limit_errors += 1; }
+    }
+    if wide == big {
+        vrt_check(limit_errors == 0, "C12 limits 0..1000 on the axis whose AXIS_PTS_n entry is UWORD are no limit error");
+    } else {
+        vrt_check(limit_errors == 1, "C12 limits 0..1000 on an axis whose AXIS_PTS_n entry is UBYTE are exactly one limit error");
+    }
+    vrt_cover(true, "axis_dispatch_cube5_end");
+}
+
 // ------------------------------------------------------------------ C10: cleanup removes only, and all, unreferenced helpers
 
 fn xref_errors(file: &A2lFile) -> usize {
@@ -1181,6 +1215,18 @@ fn faulty_document(kind: u32, split: bool) -> (String, u32) {
     // returns (text, line of the token at which the problem is detected)
     let version = if kind == 7 || kind == 8 { "ASAP2_VERSION 1 60\n" } else if kind == 11 { "\n" } else if kind == 12 { "ASAP2_VERSION 1 80\n" } else { "ASAP2_VERSION 1 71\n" };
     let mut t = String::from(version);
+    if kind >= 13 {
+        // a block closed with the wrong end tag: A2ML (hand-written parser), IF_DATA, ordinary generated block
+        t.push_str("/begin PROJECT p \"\"\n/begin MODULE m \"\"\n/begin MEASUREMENT ms \"\" UBYTE NO_COMPU_METHOD 0 0 0 255\n/end MEASUREMENT\n/begin UNIT u \"\" \"\" DERIVED\n");
+        t.push_str(match kind {
+            13 => "/end UNIT\n/begin A2ML block \"IF_DATA\" taggedunion { \"X\" uint; };\n/end A2ML_BLOCK\n",
+            14 => "/end UNIT\n/begin IF_DATA X 1\n/end IF_DATAX\n",
+            _ => "/end UNITS\n",
+        });
+        t.push_str("/end MODULE\n/end PROJECT\n");
+        let line = if kind == 13 || kind == 14 { 9 } else { 7 };
+        return (t, line);
+    }
     t.push_str("/begin PROJECT p \"\"\n/begin MODULE m \"\"\n/begin MEASUREMENT ms \"\" UBYTE NO_COMPU_METHOD 0 0 0 255\nECU_ADDRESS 0x10\n");
     // line 6:
     let (line6, at_param) = match kind {
@@ -1214,7 +1260,7 @@ fn faulty_document(kind: u32, split: bool) -> (String, u32) {
 }
 
 pub(crate) fn h_strict_vs_nonstrict() {
-    let kind = vrt_choice(13);
+    let kind = vrt_choice(16);
     let split = vrt_choice(2) == 1;
     let (text, fault_line) = faulty_document(kind, split);
     let strict = load_from_string(&text, None, true);
@@ -1250,7 +1296,7 @@ pub(crate) fn h_strict_vs_nonstrict() {
     vrt_observe_bool(relaxed.is_ok());
     match kind {
         0 | 8 => vrt_check(strict.is_ok(), "C06 a valid document loads in strict mode"),
-        1 | 2 | 3 | 7 | 9 | 10 | 11 | 12 => {
+        1 | 2 | 3 | 7 | 9 | 10 | 11 | 12 | 13 | 14 | 15 => {
             vrt_check(strict.is_err(), "C06 strict loading rejects a recoverable problem");
             vrt_check(relaxed.is_ok(), "C06 non-strict loading recovers from a recoverable problem");
         }
@@ -1841,7 +1887,7 @@ pub(crate) fn h_c20_documents() {
 
 /// fault kinds of the C06 family in both modes, unknown elements inside real blocks (C07 family)
 pub(crate) fn h_c20_faults() {
-    let kind = vrt_choice(13);
+    let kind = vrt_choice(16);
     let split = vrt_choice(2) == 1;
     let strict = vrt_choice(2) == 1;
     let (text, _) = faulty_document(kind, split);
@@ -1882,29 +1928,30 @@ pub(crate) fn h_every_element_roundtrip() {
     vrt_cover(!crate::verif_fp::VERIF_FP_STUB, "generated document and fingerprint module are in place");
     match load_from_string(EVERY_ELEMENT, None, true) {
         Ok((file, log)) => {
-            vrt_check(log.is_empty(), "C01 a document built from the grammar loads in strict mode without any diagnostic");
+            vrt_soft_check(log.is_empty(), "C01 a document built from the grammar loads in strict mode without any diagnostic");
             let out1 = file.write_to_string();
+            vrt_soft_check(out1.trim() == EVERY_ELEMENT.trim(), "C05 a document in the writer's own format (every element of the grammar) is reproduced byte for byte");
             let a = significant(EVERY_ELEMENT);
             let b = significant(&out1);
-            vrt_check(a.len() == b.len(), "C02 load+write keeps the number of significant tokens of the every-element document");
+            vrt_soft_check(a.len() == b.len(), "C02 load+write keeps the number of significant tokens of the every-element document");
             let n = if a.len() < b.len() { a.len() } else { b.len() };
             let mut mismatches = 0u32;
             for i in 0..n {
                 let same = if a[i].0 == 5 && b[i].0 == 5 { number_value(&a[i].1) == number_value(&b[i].1) } else { a[i].0 == b[i].0 && a[i].1 == b[i].1 };
                 if !same { mismatches += 1; }
             }
-            vrt_check(mismatches == 0, "C02 every token of the every-element document survives load and write with its value");
+            vrt_soft_check(mismatches == 0, "C02 every token of the every-element document survives load and write with its value");
             match load_from_string(&out1, None, true) {
                 Ok((file2, _)) => {
-                    vrt_check(file2 == file, "C01 load(write(M)) == M on the every-element document");
-                    vrt_check(crate::verif_fp::fingerprint(&file2) == crate::verif_fp::fingerprint(&file), "C01 every data field of the reloaded every-element model is equal");
-                    vrt_check(file2.write_to_string() == out1, "C01 the second write of the every-element document is identical to the first");
+                    vrt_soft_check(file2 == file, "C01 load(write(M)) == M on the every-element document");
+                    vrt_soft_check(crate::verif_fp::fingerprint(&file2) == crate::verif_fp::fingerprint(&file), "C01 every data field of the reloaded every-element model is equal");
+                    vrt_soft_check(file2.write_to_string() == out1, "C01 the second write of the every-element document is identical to the first");
                 }
-                Err(_) => vrt_check(false, "C01 the written every-element document loads again"),
+                Err(_) => vrt_soft_check(false, "C01 the written every-element document loads again"),
             }
             vrt_observe_u64(crate::verif_fp::fingerprint(&file).len() as u64);
         }
-        Err(_) => vrt_check(false, "C01 a document built from the grammar loads in strict mode"),
+        Err(_) => vrt_soft_check(false, "C01 a document built from the grammar loads in strict mode"),
     }
 }
 
@@ -2144,3 +2191,29 @@ pub(crate) fn h_c20_versions() {
     text.push_str(rest);
     c20_observe(&load_from_string(&text, None, strict));
 }
+
+/// C20: the single-deviation documents of the reference grammar on both builds (chunk c of n: every n-th document;
+/// in addition every document whose deviation is a missing required element)
+fn c20_deviation(chunk: u32, chunks: u32) {
+    let n = crate::verif_dev::N_DEV;
+    vrt_cover(n > 0, "deviation documents are in place");
+    if n == 0 { return; }
+    let per = (n + chunks - 1 - chunk) / chunks;
+    let mut extra: Vec<u32> = Vec::new();
+    if chunk == 0 {
+        for k in 0..n { if crate::verif_dev::dev_doc(k).1 == "required_missing" { extra.push(k); } }
+    }
+    let j = vrt_choice(per + extra.len() as u32);
+    let k = if j < per { chunk + chunks * j } else { extra[(j - per) as usize] };
+    let strict = vrt_choice(2) == 1;
+    let (text, _kind, _expect, _hard) = crate::verif_dev::dev_doc(k);
+    c20_observe(&load_from_string(text, None, strict));
+}
+pub(crate) fn h_c20_deviations_q() { c20_deviation(0, 8); }
+pub(crate) fn h_c20_deviations_1() { c20_deviation(1, 8); }
+pub(crate) fn h_c20_deviations_2() { c20_deviation(2, 8); }
+pub(crate) fn h_c20_deviations_3() { c20_deviation(3, 8); }
+pub(crate) fn h_c20_deviations_4() { c20_deviation(4, 8); }
+pub(crate) fn h_c20_deviations_5() { c20_deviation(5, 8); }
+pub(crate) fn h_c20_deviations_6() { c20_deviation(6, 8); }
+pub(crate) fn h_c20_deviations_7() { c20_deviation(7, 8); }
